@@ -25,7 +25,7 @@ FN = 60.0
 
 def build_swing(M, D, xd1, x, p, Sn=100.0):
     # M, D, xd1 describe the physical machine on the 100 MVA system base; the data are entered on the machine's own rating
-    k = Sn / 100.0
+    kb = Sn / 100.0
     ss = systems.new_system()
     ss.add('Bus', dict(idx=1, name='G', Vn=110))
     ss.add('Bus', dict(idx=2, name='INF', Vn=110))
@@ -33,7 +33,7 @@ def build_swing(M, D, xd1, x, p, Sn=100.0):
         ss.add('Line', dict(idx=f'L{k + 1}', bus1=1, bus2=2, x=x * (1 + 0.5 * k), r=0.0, Vn1=110, Vn2=110))
     ss.add('Slack', dict(idx='S', bus=2, v0=1.0, a0=0.0, Vn=110))
     ss.add('PV', dict(idx='G1', bus=1, p0=p, v0=1.03, Vn=110))
-    ss.add('GENCLS', dict(idx='GEN', bus=1, gen='G1', Vn=110, Sn=Sn, M=M / k, D=D / k, xd1=xd1 * k, ra=0.0, fn=FN))
+    ss.add('GENCLS', dict(idx='GEN', bus=1, gen='G1', Vn=110, Sn=Sn, M=M / kb, D=D / kb, xd1=xd1 * kb, ra=0.0, fn=FN))
     for k in range(2):
         ss.add('Toggle', dict(idx=f'T{k}', model='Line', dev='L2', t=-1, u=0))
     for k in range(2):
